@@ -149,6 +149,19 @@ func c09(e *Env) {
 				}
 			}
 		}
+		// sometimes the client *prepares* a USE (and does not execute it, or not yet): preparing a
+		// statement changes nothing about the connection - the current keyspace is what it was
+		if c.Choose("c09prepared-use", 8) == 7 {
+			ks := c09Keyspaces[1+c.Choose("c09prepared-use-ks", len(c09Keyspaces)-1)]
+			r := cl.Send("prepare", "", &message.Prepare{Query: "USE " + ks}, nil)
+			if !w.RunUntil(func() bool { return len(r.Replies) > 0 }, 5*time.Minute) {
+				if !w.Stopped() {
+					w.Violate("c09-drain", "prepare-not-answered", "PREPARE of USE "+ks+" got no reply")
+				}
+				return
+			}
+			e.Res.Stats["probe.c09.use_prepared_but_not_executed"]++
+		}
 		cell++
 		q := c09Qualifiers[(cell+c.Choose("qoff", len(c09Qualifiers)))%len(c09Qualifiers)]
 		t := c09Tables[(cell/len(c09Qualifiers)+c.Choose("toff", len(c09Tables)))%len(c09Tables)]
